@@ -150,11 +150,12 @@ def make_case(name, schema, cls, expect, verdict, warn=False, note="", data=None
     return c
 
 
-def gen_cases(rng, n_base, size, mutators=None, lexical=True, tag="g"):
-    """valid schemas and all their single-fault mutants"""
+def gen_cases(rng, n_base, size, mutators=None, lexical=True, tag="g", pre=None):
+    """valid schemas and all their single-fault mutants; `pre` (a function of the base index) puts a prefix in front of every
+    declared name — used for identifiers long enough to overflow fixed-size message buffers"""
     cases = []
     for i in range(n_base):
-        base = G.gen_schema(rng, size)
+        base = G.gen_schema(rng, size, pre=pre(i) if pre else "")
         cases.append(make_case(f"{tag}{i}_valid", base, "valid", [], "accept"))
         for mn in (mutators if mutators is not None else sorted(G.MUTATORS)):
             f = G.mutate(base, mn, rng)
@@ -448,6 +449,21 @@ def canon(diags, with_lines=True, drop=ORDER_DEPENDENT):
             continue
         out.append((code, msg if "\x01" not in msg else "<ambient>", line if (with_lines and code not in LINE_UNMODELLED) else None, f))
     return sorted(out, key=lambda t: (t[0], t[1], -1 if t[2] is None else t[2], t[3] or ""))
+
+
+def split_wrong_scope(case, diags):
+    """(diags without the `Function f undefined` / `Domain rule wt… must refer to SELF` pairs that name a function the file DOES
+    declare, number of such pairs).  They come from a type's WHERE rule being resolved in the scope of whichever schema uses the
+    type first (hash order) instead of the declaring schema — finding type-where-resolved-in-importing-scope / fixes/C04-3."""
+    if not getattr(case, "multi", False):
+        return diags, 0
+    declared = {l.split()[1] for l in case.proto if l.startswith("func ")}
+    bad_lines = {(d[1], d[2]) for d in diags if d[0] == "UNDEFINED_FUNC" and
+                 any(d[3] == f"Function {fn} undefined." for fn in declared)}
+    if not bad_lines:
+        return diags, 0
+    keep = [d for d in diags if not ((d[1], d[2]) in bad_lines and d[0] in ("UNDEFINED_FUNC", "MISSING_SELF"))]
+    return keep, len(bad_lines)
 
 
 def status_of(rc):
